@@ -123,3 +123,7 @@ def main(run: core.Run) -> None:
     run.bounds['class_corpus'] = 'one minimal and one full document per directive class (38 documents), depth 1'
     docexp.bfs(run, ORACLE, items, 'depth-1 corpus')
     docexp.bfs(run, ORACLE, d2, 'depth-2 corpus')
+    # histories of three steps confined to one repeated field and its aliasing views
+    fc = docexp.focus_cases(3, 'basic', docexp.FOCUS_SUBJECTS[:1] if tier == 'quick' else None)
+    docexp.bfs(run, ORACLE, fc, 'depth-3 single-field histories')
+    run.bounds['depth3'] = f'{len(fc)} single-field subjects (one repeated field + its views), in-range arguments'
